@@ -43,6 +43,9 @@ def run(ctx):
                                                               (t[1] in entry_paths and util.is_param(t[2], 1)))
             if not ok and d and any(opw._is_discr_of_self_constraints(g) and k == 0 for g, k, sw in b.guard_terms(d[1])):
                 ok = True            # no limits configured on this path: there is nothing to filter
+            if not ok and isinstance(t, tuple) and t[0] == 'call' and len(t) > 2 and util.is_param(t[2], 1) and _tail_helper_filters(prog, t[1], fpaths, entry_paths):
+                ok = True            # the tail lives in a helper method every return path of which ends in the limits filter
+                ctx.fn(prog.bodies[t[1]])
             ctx.check(ok, 'R08.1', key, b.where(d[1], d[2]) if d else b.where(0), b.path,
                       'a return path delivers solutions that did not pass the joint-limit filter (path condition: %s)' % (guards or 'always'),
                       found=show(t, maxdepth=3), expected='filter_constraints_compliant(..) / a filtered sibling entry point',
@@ -69,6 +72,9 @@ def run(ctx):
             if (last in opw.VEC_REMOVERS and owner in ('Vec', 'slice', 'VecDeque')) or \
                     (last in (opw.ITER_DROPPERS - {'find', 'find_map', 'nth', 'last'}) and owner in ('Iterator', 'ParallelIterator', 'IndexedParallelIterator')):
                 bad.append((bi, nm))
+        if b in fr:
+            # the limits filter itself may remove in place (its retain was matched as the filter: kept iff compliant)
+            bad = [(bi, nm) for bi, nm in bad if nm != 'Vec::retain']
         for bi, nm in bad:
             ctx.violation('R08.2', '%s/%s' % (b.path.split('::')[-1], nm), b.where(bi), b.path, 'element-removing operation `%s` on the solution path' % nm)
         if not bad:
@@ -151,6 +157,26 @@ def run(ctx):
                     why = 'solutions are modified after the inner solver applied the joint limits: ' + _describe_mods(b)
                 ok = False
             ctx.check(ok, 'R08.4', '%s/%s' % (w, m), b.where(vv[0][0]), b.path, why, detail='inner result returned as filtered')
+
+
+def _tail_helper_filters(prog, path, fpaths, entry_paths, depth=0):
+    """path names an inherent method of the solver whose every return value is the limits filter applied to something (or, one
+    level further, such a helper again)"""
+    hb = prog.bodies.get(path)
+    if hb is None or hb.kind == 'Closure' or hb.raw.get('impl_self') != opw.OPW or hb.raw.get('impl_trait') or depth > 2:
+        return False
+    rvs = hb.return_values()
+    if not rvs:
+        return False
+    for t, d, rb in rvs:
+        t = strip(t)
+        ok = isinstance(t, tuple) and t[0] == 'call' and (t[1] in fpaths or cname(t[1]) == 'Constraints::filter' or
+                                                          (len(t) > 2 and util.is_param(t[2], 1) and _tail_helper_filters(prog, t[1], fpaths, entry_paths, depth + 1)))
+        if not ok and d and any(opw._is_discr_of_self_constraints(g) and k == 0 for g, k, sw in hb.guard_terms(d[1])):
+            ok = True
+        if not ok:
+            return False
+    return True
 
 
 def run_dependencies(ctx):
